@@ -536,6 +536,14 @@ def check_message(col, msg, root, target, desc, key, width):
             return col.violation('C05/target-abbreviated-although-it-fits' if ln.kind == 'Target' else 'C05/spec-abbreviated-although-it-fits',
                                  '%s: the line %r (depth %d) stands for %s, which fits in the width of %d\n%s'
                                  % (desc, ln.raw, ln.depth, short(repr(cands[0]), 200), width, msg), wit)
+    # (4''') every Target line of the trace - at any depth, in followed and abandoned branches alike - renders a value that some spec
+    # of this evaluation really received as its target
+    for ln in tokens:
+        if ln.kind == 'Target' and not any(matches(ln.text, f.target) for f in frames):
+            return col.violation('C05/target-line-shows-a-value-no-spec-received',
+                                 '%s: the line %r (depth %d) renders none of the %d targets received during the evaluation\n%s'
+                                 % (desc, ln.raw, ln.depth, len(frames), msg), wit)
+    col.count('target_lines_matched_to_received_targets', sum(1 for ln in tokens if ln.kind == 'Target'))
     # (5) ends with the type and message of the original error
     last = msg.rstrip('\n').split('\n')[-1]
     want_last = exc_line(original)
